@@ -183,7 +183,7 @@ def multibyte_everywhere(rows, branch):
 # streams
 
 def stream_tags(ctx, r, rows, pre, branch, scripts):
-    cases = lang_strings(r, rows, pre, branch, ctx.budget(12000, 250000))
+    cases = lang_strings(r, rows, pre, branch, ctx.budget(12000, 600000))
     cases += multibyte_everywhere(rows, branch)
     lines, cls = [], {}
     for c, s in cases:
@@ -223,7 +223,7 @@ def rand_script(r):
 def stream_prims(ctx, r, rows, pre, branch, scripts):
     langs = sorted(set(l for l, _ in rows))
     lines = []
-    n = ctx.budget(6000, 120000)
+    n = ctx.budget(6000, 300000)
     for _ in range(n):
         k = r.below(8)
         if k <= 1:     # lang_cmp: table language against arbitrary strings
@@ -299,6 +299,54 @@ def search_registry(ctx, shim, rows):
     ctx.note_search("registry-complete", len(langs), len(langs),
                     rule="every distinct language of OPEN_TYPE_LANGUAGES through tags(): the first language tag must be "
                          "the tag of its first table row (no tag when that row's tag is null)")
+
+
+def wellknown_pairs():
+    """the hand-checked pairs of `C18_wellknown` (single source: Props/C18.lean)"""
+    src = open(os.path.join(vlib.LEAN, "RbModel", "Props", "C18.lean"), encoding="utf-8").read()
+    m = re.search(r"def wellknown : List \(String × String\) := \[(.*?)\]\n", src, flags=re.S)
+    return re.findall(r'\("([^"]*)", "([^"]{4})"\)', m.group(1)) if m else []
+
+
+def search_wellknown(ctx, shim):
+    pairs = wellknown_pairs()
+    outs = vlib.run_lines(shim, [f"tags - {hx(l)}" for l, _ in pairs], nproc=1)
+    for (l, t), o in zip(pairs, outs):
+        m = re.match(r"ok s:\S+ l:(\S+)", o)
+        got = [] if not m or m.group(1) == "-" else [int(x) for x in m.group(1).split(",")]
+        if got[:1] != [tg(t)]:
+            ctx.violation(f"well-known language \"{l}\" does not map to '{t}': got {o}",
+                          {"stage": "search", "stream": "wellknown", "request": f"tags - {hx(l)}", "language": l,
+                           "expected_first_tag": tg(t), "observed": o})
+    ctx.note_search("wellknown", len(pairs), len(pairs),
+                    rule="the hand-checked BCP 47 -> OpenType pairs of C18_wellknown through tags() of the crate")
+
+
+GENERATIONS = {"Beng": "bng", "Deva": "dev", "Gujr": "gjr", "Guru": "gur", "Knda": "knd", "Mlym": "mlm", "Orya": "ory",
+               "Taml": "tml", "Telu": "tel"}
+OLD_EXCEPTIONS = {"Hira": "kana", "Laoo": "lao ", "Yiii": "yi  ", "Nkoo": "nko ", "Vaii": "vai "}
+
+
+def search_script_tags(ctx, shim, scripts):
+    """C18_script_tags on the crate, against a spec written from the OpenType script-tag registry"""
+    lines = [f"tags {tg(s)} -" for s in scripts]
+    outs = vlib.run_lines(shim, lines, nproc=1)
+    for s, ln, o in zip(scripts, lines, outs):
+        old = OLD_EXCEPTIONS.get(s, s[0].lower() + s[1:])
+        if s in GENERATIONS:
+            want = [GENERATIONS[s] + "3", GENERATIONS[s] + "2", old]
+        elif s == "Mymr":
+            want = ["mym2", "mymr"]
+        else:
+            want = [old]
+        exp = "ok s:" + ",".join(str(tg(x)) for x in want) + " l:-"
+        if o != exp:
+            ctx.violation(f"script {s} must yield the script tags {want}: got {o}",
+                          {"stage": "search", "stream": "script-tags", "request": ln, "script": s, "expected": exp,
+                           "observed": o})
+    ctx.note_search("script-tags", len(lines), len(lines),
+                    rule="every script constant of common.rs through tags(): xxx3, xxx2, old tag for the nine Indic scripts, "
+                         "mym2, mymr for Myanmar, the lower-cased ISO 15924 tag (5 registry exceptions) otherwise")
 
 
 def search_total(ctx, shim, r, rows, branch, n):
@@ -440,13 +488,16 @@ def expected_glyphs(gsub, gpos, sel):
             for fi in sys["feats"]:
                 if fi < len(tb["feats"]) and tb["feats"][fi] == REG_TAG[table]:
                     reg = fi; break
-        # the required feature is applied whatever its tag; a regular-tagged required feature hits the regular probe
+        # the required feature is applied whatever its tag, in stage 0 (before every other feature: stage 0 holds only
+        # 'rvrn') unless its tag is one the shaper knows — then in that feature's stage, where lookups run in index order
         hits = []
-        if req is not None:
+        if req is not None and req < len(tb["feats"]):
             hits.append(req)
-        if reg is not None:
+        if reg is not None and reg not in hits:
             hits.append(reg)
-        for fi in sorted(set(hits)):                      # lookups of one stage run in lookup-index order
+        if req is not None and req < len(tb["feats"]) and tb["feats"][req] == REG_TAG[table]:
+            hits.sort()
+        for fi in hits:
             isreq = tb["feats"][fi].startswith("rqd")
             if table == 0:
                 k = "B" if isreq else "A"
@@ -490,7 +541,7 @@ def select_cases(ctx, r, shim):
     import fontbuild
     tl = tag_lists(shim, SEL_SCRIPTS, SEL_LANGS)
     cases = []
-    per_subset = ctx.budget(1, 6)
+    per_subset = ctx.budget(1, 16)
     for s in SEL_SCRIPTS:
         st0 = tl[(s, "-")][0]
         universe = list(dict.fromkeys(st0 + [tg("DFLT"), tg("dflt"), tg("latn")]))
@@ -508,7 +559,7 @@ def select_cases(ctx, r, shim):
                     gsub, gpos = None, rand_table(r, 1, universe, lang_universe, present_scripts=present)
                 cases.append({"gsub": gsub, "gpos": gpos, "script": s, "lang": l, "st": st, "lt": lt, "kind": "sorted"})
     # malformed: unsorted / duplicate records (the binary search of ttf-parser is modelled as the loop it is)
-    for _ in range(ctx.budget(150, 3000)):
+    for _ in range(ctx.budget(150, 8000)):
         s = r.choice(SEL_SCRIPTS); l = r.choice(SEL_LANGS)
         st, lt = tl[(s, l)]
         universe = list(dict.fromkeys(tl[(s, "-")][0] + [tg("DFLT"), tg("dflt"), tg("latn"), tg("aaaa"), tg("zzzz")]))
@@ -652,16 +703,32 @@ def run(ctx):
     cases = select_cases(ctx, ctx.rng("select-fonts"), shim)
     stream_select(ctx, ctx.rng("select"), cases)
     search_registry(ctx, shim, rows)
-    search_total(ctx, shim, ctx.rng("total"), rows, branch, ctx.budget(4000, 100000))
+    search_wellknown(ctx, shim)
+    search_script_tags(ctx, shim, scripts)
+    search_total(ctx, shim, ctx.rng("total"), rows, branch, ctx.budget(4000, 300000))
     search_shape(ctx, cases)
 
 
 def replay(ctx, rp):
     shim = vlib.build_harness()
+    if rp.get("stream") == "select-shape":
+        lang = "-" if rp["lang"] == "-" else hx(rp["lang"])
+        o = vlib.run_groups(shim, [[f"font f {rp['font_hex']}", f"shape f l {rp['script']} {lang} 0 0 - - - {TEXT}"]], nproc=1)[0]
+        print("impl    :", o[1]); print("expected:", rp["expected"], "(selection by the model:", rp["model_selection"], ")")
+        m = o[1].split()
+        if len(m) != 6 or m[0] != "ok":
+            return 1
+        g = [x.split(":") for x in m[2:]]
+        got = {"A": int(g[0][0]), "B": int(g[1][0]), "C": int(g[2][3]), "D": int(g[3][3])}
+        return 0 if got == rp["expected"] else 1
     if "request" in rp:
         a = vlib.run_lines(shim, [rp["request"]], nproc=1)[0]
         print("impl :", a)
-        if rp.get("stream") == "registry-complete":
+        if rp.get("stream") in ("script-tags",):
+            return 0 if a == rp["expected"] else 1
+        if rp.get("stream") == "select-shape":
+            pass
+        if rp.get("stream") in ("registry-complete", "wellknown"):
             m = re.match(r"ok s:\S+ l:(\S+)", a)
             got = [] if not m or m.group(1) == "-" else [int(x) for x in m.group(1).split(",")]
             want = rp["expected_first_tag"]
